@@ -99,3 +99,20 @@ def genfunc(n=2):
 
 
 lam = lambda x=None: x  # noqa: E731
+
+
+@_deco
+@_deco
+def wrapped2(x=None):
+    return x
+
+
+class Deco:
+    @_deco
+    def dmeth(self, x=None):
+        return x
+
+    @classmethod
+    @_deco
+    def dcmeth(cls, x=None):
+        return x
